@@ -303,6 +303,7 @@ pub fn gen_request(rng: &mut Rng, allow_body: bool) -> GenReq {
     let mut casing = String::new();
     let nh = *rng.pick_weighted(&[(2, 0usize), (4, 2), (4, 4), (2, 8), (1, 12)]);
     for _ in 0..nh {
+        let tok: String;
         let base: &str = if rng.chance(2, 3) {
             let mut n = *rng.pick(&STD_REQ_HEADERS);
             // framing headers are written by the body logic below; Cookie is not repeated (RFC 6265)
@@ -310,6 +311,17 @@ pub fn gen_request(rng: &mut Rng, allow_body: bool) -> GenReq {
                 n = *rng.pick(&STD_REQ_HEADERS);
             }
             n
+        } else if rng.chance(1, 3) {
+            // any RFC 9110 token is a header name: letters, digits and the fifteen marks ! # $ % & ' * + - . ^ _ ` | ~ (names like X_Api_Key, x.y, a+b occur in the wild)
+            tok = loop {
+                let t = match rng.below(4) {
+                    0 => rng.pick(&["X_Api_Key", "x_trace_id", "_", "X.Y", "a+b", "~t", "x|y", "it's", "100%", "`q`", "^v", "*", "!", "#h", "$1", "&c"]).to_string(),
+                    1 => rng.string_over(b"!#$%&'*+-.^_`|~", 1, 4),
+                    _ => rng.string_over(b"abcXYZ019!#$%&'*+-.^_`|~", 1, 16),
+                };
+                if !STD_REQ_HEADERS.iter().any(|h| h.eq_ignore_ascii_case(&t)) { break t }
+            };
+            &tok
         } else {
             *rng.pick(&CUSTOM_REQ_HEADERS)
         };
